@@ -97,6 +97,14 @@ func (s *scn) applyGroup(st CStep) {
 	switch st.Op {
 	case "gopen":
 		all := s.allServices()
+		if s.cfg.SplitGroups {
+			all = nil
+			for _, sv := range s.allServices() {
+				if sv.chain == s.chains[0] {
+					all = append(all, sv)
+				}
+			}
+		}
 		src := all[st.A%len(all)]
 		dsts := s.dstServices(src)
 		if len(dsts) < 2 {
@@ -110,6 +118,10 @@ func (s *scn) applyGroup(st CStep) {
 		off := st.B % len(dsts)
 		for i := 0; i < n; i++ {
 			d := dsts[(off+i)%len(dsts)]
+			if st.Ghost && i == n-1 {
+				// the last declared child goes to a service that does not exist: it fails at begin
+				d = &mService{chain: d.chain, id: "ghost", ordered: true}
+			}
 			pm := s.ibtp.pair(src.full(bxh), d.full(bxh))
 			pm.batch = true // pairs carrying group children are judged by the group model, not the one-to-one counters
 			idx := pm.reqSubmitted() + 1
@@ -359,6 +371,21 @@ func (gm *groupModel) afterBlock(h uint64, txs []*pb.BxhTransaction, metas []*tx
 				}
 			}
 		}
+		// a group's children are announced as timed out only in the block in which the group times out
+		if !(failedNow[g] && g.failWhy == "group timed out") {
+			src := chainOf(g.src.full(s.cfg.World.ChainID))
+			for _, c := range g.children {
+				if c.begun && gm.byChild[c.id] == g && timeouts[src][c.id] {
+					why := "group did not time out in this block"
+					if g.failedAt != 0 {
+						why = fmt.Sprintf("group had already failed in block %d (%s)", g.failedAt, g.failWhy)
+					}
+					s.vio("C05", "unexpected-timeout-notification", "", "block %d: child %s of group %s is announced as timed out to chain %s although the %s (expiry %d)", h, c.id, g.globalID[:12], src, why, g.expiry)
+					s.vio("C06", "group-timeout-notification", "unexpected", "block %d: child %s of group %s is announced as timed out to chain %s although the %s (expiry %d)", h, c.id, g.globalID[:12], src, why, g.expiry)
+					break
+				}
+			}
+		}
 		if failedNow[g] {
 			// notifications in the failing block
 			src := chainOf(g.src.full(s.cfg.World.ChainID))
@@ -372,6 +399,9 @@ func (gm *groupModel) afterBlock(h uint64, txs []*pb.BxhTransaction, metas []*tx
 				}
 				// the child whose own failure receipt triggered the failure was already rolled back by its chain;
 				// the statement still asks the source to roll back every child
+				if !note[src][c.id] && g.failWhy == "group timed out" {
+					s.vio("C06", "group-timeout-notification", "missing", "block %d: group %s timed out (accepted in block %d with timeout %d) but its child %s is not in the timeout notifications of source chain %s: %v", h, g.globalID[:12], g.expiry-uint64(g.t), g.t, c.id, src, keysOf(timeouts))
+				}
 				if !note[src][c.id] {
 					s.vio("C05", "source-not-told-to-roll-back", g.failWhy, "block %d: group %s failed (%s) but source chain %s is not told to roll back child %s; notifications: multi=%v timeout=%v", h, g.globalID[:12], g.failWhy, src, c.id, keysOf(multi), keysOf(timeouts))
 					break
